@@ -80,7 +80,8 @@ EOF
 
 # ---- 1. build guard (type-level clause): compilation, not simulation
 GLOG="$VERIF/.build/parts/guard.log"
-if ! cargo build --offline -q --release --manifest-path "$GUARD" --target-dir "$TDIR-guard" >"$GLOG" 2>&1; then
+if ! { cargo build --offline -q --release --manifest-path "$GUARD" --target-dir "$TDIR-guard" >"$GLOG" 2>&1 && \
+       cargo build --offline -q --release --features allfeatures --manifest-path "$GUARD" --target-dir "$TDIR-guard" >>"$GLOG" 2>&1; }; then
   RP="$RPD/C18-guard.json"
   python3 - "$GLOG" "$RP" <<'EOF'
 import json, sys
@@ -91,7 +92,8 @@ EOF
   emit_part 1 0 0 0; exit 1
 fi
 # nightly leg of the guard: Freeze (no interior mutability directly inside the types)
-if ! cargo +nightly build --offline -q --release --features nightly --manifest-path "$GUARD" --target-dir "$TDIR-guard-nightly" >"$GLOG" 2>&1; then
+if ! { cargo +nightly build --offline -q --release --features nightly --manifest-path "$GUARD" --target-dir "$TDIR-guard-nightly" >"$GLOG" 2>&1 && \
+       cargo +nightly build --offline -q --release --features nightly,allfeatures --manifest-path "$GUARD" --target-dir "$TDIR-guard-nightly" >>"$GLOG" 2>&1; }; then
   RP="$RPD/C18-guard.json"
   python3 -c 'import json,sys; json.dump({"engine": "threadsim-guard", "property": "C18", "detail": open(sys.argv[1]).read()[-4000:]}, open(sys.argv[2], "w"), indent=1)' "$GLOG" "$RP"
   grep -E "^error" -A 8 "$GLOG" | head -30
